@@ -199,7 +199,7 @@ pub fn sets(ctx: &Ctx) -> Vec<CaseSet> {
     let (tb1, cfg1) = (tb.clone(), cfg.clone());
     out.push(CaseSet::new(
         "values",
-        ctx.size(12_000, 700_000),
+        ctx.size(36_000, 2_800_000),
         Box::new(move |rep, rng, _| {
             let v = gen::gen_value(rng, &cfg1, &tb1, 0);
             if rep.samples.len() < 3 {
@@ -212,7 +212,7 @@ pub fn sets(ctx: &Ctx) -> Vec<CaseSet> {
     let (tb2, cfg2) = (tb.clone(), cfg.clone());
     out.push(CaseSet::new(
         "leaf-classes",
-        ctx.size(30_000, 1_500_000),
+        ctx.size(90_000, 6_000_000),
         Box::new(move |rep, rng, case| {
             let (v, class) = leaf_stream(rng, &tb2, &cfg2, case);
             check_value(rep, &v, rule, rng, class);
